@@ -813,6 +813,38 @@ def run_hooked(case, res, P, feats, rng, n_steps):
                            'gap': r_.core.model})
             return None
         hk.wrap(dassh.assembly.Assembly, 'calculate', pre=_handed)
+
+        def _to_gap(args, kwargs):
+            # the other direction at its use site: what the core is handed
+            # for every assembly is the plain duct->gap transfer of that
+            # assembly's outer surface temperatures (integral-preserving)
+            r_ = state['r']
+            if r_ is None:
+                return None
+            td = np.asarray(args[2] if len(args) > 2 else
+                            kwargs['asm_duct_temps'], dtype=float)
+            worst, wit = 0.0, None
+            for i, a_ in enumerate(r_.assemblies):
+                m_ = np.asarray(a_.active_region._map['duct2gap'],
+                                dtype=float)
+                tw = np.asarray(a_.duct_outer_surf_temp, dtype=float)
+                n_g = int(r_.core._n_sc_per_asm[i])
+                want = np.dot(m_, tw)
+                n_c = min(n_g, len(want))
+                want = want[:n_c]
+                got = td[i][:n_c]
+                d_ = float(np.max(np.abs(got - want)))
+                if d_ > worst:
+                    worst, wit = d_, (i, float(np.ptp(tw)))
+            res.close('G3_duct_values_handed_to_gap_are_plain_transfer',
+                      worst, 1000.0, 1e-12,
+                      'outer duct temperatures handed to the gap model are '
+                      'not the duct->gap transfer of the assembly\'s own '
+                      'surface temperatures (max %.3e K; assembly, spread '
+                      '%r)' % (worst, wit),
+                      {'mech': 'handed_to_gap', 'gap': r_.core.model})
+            return None
+        hk.wrap(dassh.core.Core, 'calculate_gap_temperatures', pre=_to_gap)
         import dassh.region_rodded as _rr
         import dassh.region_unrodded as _ru
         hk.wrap(_rr.RoddedRegion, 'activate', pre=_activate)
